@@ -27,7 +27,8 @@ META = {
 }
 
 FAMS = ["types"]
-MC_INVS = ["ExportFaithful", "SymmetricOps", "ComparisonDuality", "OrderedImpliesEq", "VarAssignCoherence", "ReprMonotone", "Weakening", "TermPlacement"]
+MC_INVS = ["ExportFaithful", "SymmetricOps", "ComparisonDuality", "OrderedImpliesEq", "VarAssignCoherence", "ReprMonotone", "Weakening", "TermPlacement",
+           "AssignIrrelevant", "AssignDoesNotRescue"]
 GRAMMAR = ("core: types int int8 uint8 float64 string bool N(int) NS([]int) *int []int map[string]int func(int) int any error chan int; "
            "leaves = one variable per type + constants 0 1 300 -1 1.5 \"s\" true nil; expressions = leaf | unary(7 ops) | binary(19 ops) | conversion | "
            "call | index | slice | len cap append make panic delete | type assertion | []int{..} map[string]int{..}; "
@@ -35,7 +36,13 @@ GRAMMAR = ("core: types int int8 uint8 float64 string bool N(int) NS([]int) *int
            "not generated: methods, generics, structs, arrays, range, goto, fallthrough, min/max/clear, packages other than main")
 
 # Defects of scriggo demonstrated by this check on the unchanged tree (reported to the integrator; see the family report).
-PROPOSED_KNOWN = []   # eight of the ten root causes found by this check were fixed in /repo; `vf / 0` (pinned by the repository's own tests) and labelled continue stay known findings (known-findings.json)
+PROPOSED_KNOWN = [   # (eight of the ten root causes found earlier were fixed in /repo; `vf / 0` and labelled continue are in known-findings.json)
+    {"kind": "known",
+     "signature": {"fam": "types", "grp": "life", "want": "reject", "rule": "cannot assign to non-variable", "got": "ok"},
+     "what": "`const a = 1; a, n := 1, 2` and `type a int; a, n := 1, 2` are accepted: a name of the current block that is not a variable "
+             "is 'redeclared' by := (checker_assignment.go checkShortVariableDeclaration: the already-declared branch never tests that the "
+             "name denotes a variable); go/types: 'cannot assign to a'"},
+]
 
 
 def mc_invs(ctx):
